@@ -82,7 +82,7 @@ MANIFEST = dict(
           "binary64 evaluation of its records with CPython); the hand-written templates Finders.lean, EpochCore.lean, "
           "EpochCal.lean, EpochOps.lean, whose binary64 instantiation is run against CPython from the query's _jde to the "
           "_jde of the returned Epoch on every case; real/rational arithmetic stands for binary64 in the theorems "
-          "(idealisation measured, not proved). Known findings: see findings.d/C13.json."),
+          "(idealisation measured, not proved). Known findings: see known_findings.json (property C13)."),
     technique="Lean 4 proof over generated data records (generic lemma + kernel-decided side conditions), composed with the "
               "proved calendar model + bit-exact whole-chain model/implementation correspondence + predicate evaluation "
               "against VSOP87 positions",
